@@ -55,13 +55,18 @@ peg::parser! {
             ['\\'] [c] { c.to_string() }
 
         rule bracket_expression() -> String =
-            "[" invert:(invert_char()?) members:bracket_member()+ "]" {
-                let mut members = members.into_iter().flatten().collect::<Vec<_>>();
+            "[" invert:(invert_char()?) first:(leading_right_bracket()?) members:bracket_member()* "]" {?
+                // There must be at least one member (a leading `]` counts as one).
+                if first.is_none() && members.is_empty() {
+                    return Err("empty bracket expression");
+                }
+
+                let mut members = first.into_iter().chain(members).flatten().collect::<Vec<_>>();
 
                 // If we completed the parse but ended up with no valid members
                 // of the bracket expression, then return a regex that matches nothing.
                 // (Or in the inverted case, matches everything.)
-                if members.is_empty() {
+                Ok(if members.is_empty() {
                     if invert.is_some() {
                         String::from(".")
                     } else {
@@ -73,8 +78,21 @@ peg::parser! {
                     }
 
                     std::format!("[{}]", members.join(""))
-                }
+                })
             }
+
+        // A `]` directly after the opening bracket (or after the inversion character)
+        // is an ordinary member, possibly the start of a range.
+        rule leading_right_bracket() -> Option<String> =
+            "]" "-" to:single_char_bracket_member() {
+                let (to_str, to_c) = to;
+                if ']' <= to_c {
+                    Some(std::format!(r"\]-{to_str}"))
+                } else {
+                    None
+                }
+            } /
+            "]" { Some(String::from(r"\]")) }
 
         rule invert_char() -> bool =
             ['!' | '^'] { true }
@@ -246,6 +264,10 @@ mod tests {
         assert_eq!(pattern_to_regex_str(r"[-\(\),\!]*", true)?, r"[-\(\),\!].*");
         assert_eq!(pattern_to_regex_str(r"[a\-b]", true)?, r"[a\-b]");
         assert_eq!(pattern_to_regex_str(r"[a\-\*]", true)?, r"[a\-\*]");
+        assert_eq!(pattern_to_regex_str("[]a]", true)?, r"[\]a]");
+        assert_eq!(pattern_to_regex_str("[!]]", true)?, r"[^\]]");
+        assert_eq!(pattern_to_regex_str("[]-a]", true)?, r"[\]-a]");
+        assert_eq!(pattern_to_regex_str("[]", true)?, r"\[\]");
         Ok(())
     }
 
